@@ -48,10 +48,16 @@ func (h *hist) checkPass() {
 	if w.pass.Stats.BytesMoved != bytes || w.pass.Stats.AllocationsMoved != len(h.pending) {
 		h.fail("C15", "pass-stats-collect", fmt.Sprintf("pass counters %d/%dB, moves %d/%dB", w.pass.Stats.AllocationsMoved, w.pass.Stats.BytesMoved, len(h.pending), bytes))
 	}
-	// C15: a run of copies finishes after finitely many passes
+	// C15: a block with an ignored move is immovable for the rest of the run: never a source again
+	for i, m := range h.pending {
+		if h.ignoredBlocks[m.srcBlk] {
+			h.fail("C15", "ignored-block-source-again", fmt.Sprintf("move %d: source block %d had an ignored move earlier in this run", i, m.srcBlk))
+		}
+	}
+	// C15: an undisturbed run (any decisions) finishes after finitely many passes
 	if h.copyOnly && len(h.pending) > 0 {
 		h.passesWithMove++
-		if bound := 10*h.userAllocCount() + 10; h.passesWithMove > bound {
+		if bound := 10*(h.userAllocCount()+len(w.blocks)) + 10; h.passesWithMove > bound {
 			h.fail("C15", "no-termination", fmt.Sprintf("%d passes with moves, bound %d", h.passesWithMove, bound))
 			h.passesWithMove = 0
 		}
@@ -82,12 +88,11 @@ func (h *hist) checkOutcome(before map[int]slotSnap, ds []int) {
 				h.fail("C07", "outcome-copy", fmt.Sprintf("move %d slot %d: after %+v, want %+v", i, m.src, a, want))
 			}
 		case 1:
-			h.copyOnly = false
+			h.ignoredBlocks[m.srcBlk] = true
 			if !hadB || !hasA || a != b {
 				h.fail("C07", "outcome-ignore", fmt.Sprintf("move %d slot %d: after %+v, before %+v", i, m.src, a, b))
 			}
 		case 2:
-			h.copyOnly = false
 			if hasA {
 				h.fail("C07", "outcome-destroy", fmt.Sprintf("move %d slot %d still live", i, m.src))
 			}
